@@ -426,36 +426,56 @@ def r5(ctx):
     tbl = {}
     bad_tbl = bad_vis = None
     unix = any(c["k"] == "MCall" and c["m"] == "ino" for c in walk_exprs(oh))
+    stats = any(c["k"] == "MCall" and c["m"] in ("metadata", "symlink_metadata") for c in walk_exprs(oh))
+    bad_stat = None
     for follow in (False, True):
         for is_link in (False, True):
             for seen in ((False, True) if unix else (False,)):
-                visited = {7} if seen else set()
+                for stat_ok in ((True, False) if stats else (True,)):
+                    # the visited set may be keyed by the inode or by (device, inode)
+                    visited = {7, (1, 7)} if seen else set()
 
-                def call(node, recv, args, it, env, is_link=is_link):
-                    m = node.get("m")
-                    if m == "ino":
-                        return (7,)
-                    if m == "is_symlink":
-                        return (is_link,)
-                    return None
-                env = {}
-                for p_ in ps:
-                    if p_.get("k") == "Bind":
-                        env[p_["id"]] = {"current_follow_symlinks": follow, "visited_inodes": visited} if p_["name"] == "self" else interp.Opaque(p_["name"])
-                try:
-                    got = interp.Interp(call=call).run(oh, env)
-                except interp.Undecided as e:
-                    bad_tbl = "cannot evaluate ok_to_visit_dir: %s" % e
-                    break
-                want = (not seen) and (follow or not is_link)
-                n += 1
-                if got != want and bad_tbl is None:
-                    if seen or (unix and 7 not in visited):
-                        bad_vis = "follow=%s link=%s inode seen before=%s -> %s" % (follow, is_link, seen, got)
-                    else:
-                        bad_tbl = "follow=%s link=%s -> %s" % (follow, is_link, got)
-                if unix and not seen and 7 not in visited and bad_vis is None:
-                    bad_vis = "a new inode is not recorded (follow=%s link=%s)" % (follow, is_link)
+                    def call(node, recv, args, it, env, is_link=is_link, stat_ok=stat_ok):
+                        m = node.get("m")
+                        if m == "ino":
+                            return (7,)
+                        if m == "dev":
+                            return (1,)
+                        if m == "is_symlink":
+                            return (is_link,)
+                        if m in ("metadata", "symlink_metadata") and isinstance(recv, interp.Opaque):
+                            return (interp.V("Result::Ok", [interp.Opaque("metadata")]) if stat_ok else interp.V("Result::Err", [interp.Opaque("EACCES")]),)
+                        return None
+                    env = {}
+                    selfv = interp.LazySelf({"current_follow_symlinks": follow, "visited_inodes": visited, "error_count": 0})
+                    for p_ in ps:
+                        if p_.get("k") == "Bind":
+                            env[p_["id"]] = selfv if p_["name"] == "self" else interp.Opaque(p_["name"])
+                    try:
+                        got = interp.Interp(call=call, prog=ctx.prog).run(oh, env)
+                    except interp.Undecided as e:
+                        bad_tbl = "cannot evaluate ok_to_visit_dir: %s" % e
+                        break
+                    n += 1
+                    if not stat_ok:
+                        # nothing is known about the entry: it may be tried (visit_dir reports what fails) or the failure
+                        # counted - but not dropped without a trace
+                        if got is False and not selfv["error_count"] and (follow or not is_link) and bad_stat is None:
+                            bad_stat = "follow=%s link=%s: the entry cannot be stat'ed and is refused without counting an error" % (follow, is_link)
+                        continue
+                    want = (not seen) and (follow or not is_link)
+                    recorded = 7 in visited or (1, 7) in visited
+                    if got != want and bad_tbl is None:
+                        if seen or (unix and not recorded):
+                            bad_vis = "follow=%s link=%s inode seen before=%s -> %s" % (follow, is_link, seen, got)
+                        else:
+                            bad_tbl = "follow=%s link=%s -> %s" % (follow, is_link, got)
+                    if unix and not seen and not recorded and bad_vis is None:
+                        bad_vis = "a new inode is not recorded (follow=%s link=%s)" % (follow, is_link)
+    ctx.obligation(bad_stat is None)
+    if bad_stat:
+        ctx.violation("symlink-gate/stat-failure", ctx.where(OK_TO_VISIT),
+                      "a directory whose attributes cannot be read must not vanish from the search silently (%s): its sub-tree is neither listed nor reported, and the exit status stays 0" % bad_stat)
     ctx.obligation(bad_tbl is None)
     ctx.covered("descent sites guarded by ok_to_visit_dir; ok_to_visit_dir evaluated on follow x link x seen-before", n + 2, distinct_keys=["dfs", "bfs", "table"], exhaustive=True)
     if bad_tbl:
